@@ -11,6 +11,7 @@
    with and without names), `pre` over any number of interrupted reads. *)
 From Coq Require Import List ZArith Bool.
 From Ivv Require Import Misc.InotifyModel Misc.InotifyMonitor Misc.InotifySpec Misc.InotifyCodec Misc.InotifyProofs.
+From Ivv Require Gen.LeafInotify Misc.InotifyLink.
 Import ListNotations.
 Local Open Scope Z_scope.
 
@@ -33,6 +34,41 @@ Theorem C20_parse_loop :
     loop fuel sc s true (encode evs) = loop_ev sc s evs.
 Proof. exact loop_encode. Qed.
 Print Assumptions C20_parse_loop.
+
+(* THE RECORD WALK OF THE MODEL IS THE CODE.  Gen/LeafInotify.v is regenerated on every run by gen/c2gallina.py from the
+   clang AST of the current src/iv_inotify.c, C semantics explicit (Base/CSem.v: pointer arithmetic = address arithmetic
+   inside [0, 2^64), uint32_t -> size_t sum modulo 2^64, sizeof evaluated by clang; None = undefined): the size handed to
+   read(), `if (ret <= 0)`, `if (ret == 0)`, `curr = event_queue`, `end = event_queue + ret`, `while (curr < end)`,
+   `event = curr`, `if (event->mask & IN_IGNORED || w->mask & IN_ONESHOT)`, `curr += event->len + sizeof(struct
+   inotify_event)`, `if (this == NULL)`.  With `view curr end rest` = "the pointers delimit exactly the model's byte list
+   rest": read size = QUEUE_SIZE; the ret tests distinguish empty / non-empty / -1 as the model does; the two
+   initialisations establish the view of the bytes read; the loop test sees exactly whether rest is empty; for every
+   record the model accepts (parse_header, has_bytes) the advance is defined, adds len + 16 and re-establishes the view of
+   the model's zskip (len + 16) rest; the deletion test is the model's two testbits; `this == NULL` is address 0. *)
+Theorem C20_record_walk_is_the_code :
+  Ivv.Gen.LeafInotify.inotify_read_size tt = Some QUEUE_SIZE /\
+  (forall q : list Z,
+     Ivv.Gen.LeafInotify.inotify_nothing_read (zlength q) = Some (match q with [] => true | _ :: _ => false end) /\
+     Ivv.Gen.LeafInotify.inotify_read_zero (zlength q) = Some (match q with [] => true | _ :: _ => false end)) /\
+  (Ivv.Gen.LeafInotify.inotify_nothing_read (-1) = Some true /\ Ivv.Gen.LeafInotify.inotify_read_zero (-1) = Some false) /\
+  (forall base q, 0 <= base -> base + zlength q < 2 ^ 64 ->
+     exists curr end_, Ivv.Gen.LeafInotify.inotify_curr_init base = Some curr /\
+                       Ivv.Gen.LeafInotify.inotify_end_init base (zlength q) = Some end_ /\
+                       Ivv.Misc.InotifyLink.view curr end_ q) /\
+  (forall curr end_ rest, Ivv.Misc.InotifyLink.view curr end_ rest ->
+     Ivv.Gen.LeafInotify.inotify_loop_test curr end_ = Some (match rest with [] => false | _ :: _ => true end)) /\
+  (forall curr, Ivv.Gen.LeafInotify.inotify_event_at curr = Some curr) /\
+  (forall curr end_ rest wd mask cookie len after,
+     Ivv.Misc.InotifyLink.view curr end_ rest -> 0 <= curr -> end_ < 2 ^ 64 -> 0 <= len < 2 ^ 32 ->
+     parse_header rest = Some (wd, mask, cookie, len, after) -> has_bytes len after = true ->
+     Ivv.Gen.LeafInotify.inotify_advance curr len = Some (curr + (len + 16)) /\
+     Ivv.Misc.InotifyLink.view (curr + (len + 16)) end_ (zskip (len + 16) rest)) /\
+  (forall mask wmask,
+     Ivv.Gen.LeafInotify.inotify_dropped_test mask wmask =
+     Some (Z.testbit mask IN_IGNORED_BIT || Z.testbit wmask IN_ONESHOT_BIT)) /\
+  (forall a, Ivv.Gen.LeafInotify.inotify_gone_test a = Some (a =? 0)).
+Proof. exact Ivv.Misc.InotifyLink.inotify_link_all. Qed.
+Print Assumptions C20_record_walk_is_the_code.
 
 (* Routing: one call of the fd handler whose read (after any number of EINTRs)
    returns the events evs succeeds, and its handler calls are exactly those of
